@@ -65,7 +65,36 @@ def extra(sub, root):
         st.text(alphabet="abcdefghijklmnopqrstuvwxyzIDKR_", min_size=0, max_size=3),
         st.text(min_size=1, max_size=8),
     ).filter(lambda s: s not in names)
-    return st.lists(st.tuples(st.integers(0, 10**6), fresh, tvgen.json_any), min_size=1, max_size=3)
+    # node-relative names: another spelling (snake_case, kebab-case, PascalCase, ...) of a property the node's own class
+    # declares - resolved in body(), where the node is known; JSON-serialisable marker [mode, k]
+    respelt = st.tuples(st.sampled_from(RESPELL_MODES), st.integers(0, 200)).map(list)
+    return st.lists(st.tuples(st.integers(0, 10**6), st.one_of(fresh, fresh, respelt), tvgen.json_any), min_size=1, max_size=3)
+
+
+RESPELL_MODES = ["snake", "kebab", "pascal", "upper-snake", "trailing-underscore", "dotted", "lower"]
+
+
+def respell(name: str, mode: str) -> str:
+    import re
+    words = re.sub(r"([a-z0-9])([A-Z])", r"\1 \2", name).split()
+    low = [w.lower() for w in words]
+    return {"snake": "_".join(low), "kebab": "-".join(low), "pascal": name[:1].upper() + name[1:], "upper-snake": "_".join(low).upper(),
+            "trailing-underscore": name + "_", "dotted": ".".join(low), "lower": name.lower()}[mode]
+
+
+def resolve_name(sub, node_tv, node_json: dict, name) -> str:
+    """marker [mode, k] -> a respelling of the k-th multi-word (else any) declared property of the node's class,
+    absent ones first; None when it coincides with a declared name."""
+    if isinstance(name, str):
+        return name
+    mode, k = name
+    declared = [p["name"] for p in sub.objects.props(node_tv.key)]
+    if not declared:
+        return None
+    multi = [n for n in declared if n != n.lower()] or declared
+    absent = [n for n in multi if n not in node_json] or multi
+    out = respell(absent[k % len(absent)], mode)
+    return None if out in declared or out in declared_names(sub) else out
 
 
 def object_paths(tv: TV) -> List[tuple]:
@@ -98,9 +127,11 @@ def body(sub, root: tuple, tv: TV, extra=None) -> List[Tuple[str, str, str, str]
     for sel, name, payload in extra:
         path = paths[sel % len(paths)]
         node = json_at(jp, path)
-        if isinstance(node, dict) and name not in node:
+        tvn = [n for p, n in walk(tv) if p == path][0]
+        if isinstance(node, dict):
+            name = resolve_name(sub, tvn, node, name)
+        if isinstance(node, dict) and name is not None and name not in node:
             node[name] = payload
-            tvn = [n for p, n in walk(tv) if p == path][0]
             where.append(":".join(str(x) for x in tvn.key))
     if not where:
         return []
